@@ -698,9 +698,11 @@ pub fn check_readers(c: &Case) -> CheckResult {
     // read_message_into (dirty, reused buffer)
     let mut r = mk();
     let mut buf = vec![0xEE; 6000];
-    let got = repe::read_message_into(&mut r, &mut buf)
-        .map_err(|e| e.to_string())
-        .and_then(|_| split_frame(&buf));
+    let got = match repe::read_message_into(&mut r, &mut buf) {
+        Err(e) => Err(e.to_string()),
+        // Ok means "buf holds the complete frame": anything else is a wrongly accepted stream
+        Ok(()) => Ok(split_frame(&buf).map_err(|e| Fail::new("read_message_into:ok-without-whole-frame", format!("returned Ok but the buffer ({} bytes) is {e} ({class})", buf.len())))?),
+    };
     reader_outcome("read_message_into", got, r.consumed(), &reference, class)?;
 
     // plain Cursor for the blocking pair too (no dribble) when mode is Cursor
@@ -726,13 +728,16 @@ pub fn check_readers(c: &Case) -> CheckResult {
         &reference,
         class,
     )?;
-    reader_outcome(
-        "read_message_into_async",
-        b.map_err(|e| e.to_string()).and_then(|buf| split_frame(&buf)),
-        bc,
-        &reference,
-        class,
-    )?;
+    let b = match b {
+        Err(e) => Err(e.to_string()),
+        Ok(buf) => Ok(split_frame(&buf).map_err(|e| {
+            Fail::new(
+                "read_message_into_async:ok-without-whole-frame",
+                format!("returned Ok but the buffer ({} bytes) is {e} ({class})", buf.len()),
+            )
+        })?),
+    };
+    reader_outcome("read_message_into_async", b, bc, &reference, class)?;
     Ok(CaseInfo::new(nontrivial).class(class).class(match c.mode {
         ReaderMode::Cursor => "cursor",
         ReaderMode::Dribble(_) => "dribble",
